@@ -41,3 +41,11 @@ Fixpoint wf_all (n : node) : bool :=
   match n with Node _ cs =>
     (fix go (l : list node) : bool := match l with [] => true | c :: l' => wf_all c && go l' end) cs
   end.
+
+(** Does a node of kind [k] occur in the tree? (used to tell the fragment of the theorem at run time) *)
+Fixpoint has_kind (k : kind) (n : node) : bool :=
+  is_kind k n ||
+  match n with Node _ cs =>
+    (fix go (l : list node) : bool := match l with [] => false | c :: l' => has_kind k c || go l' end) cs
+  end.
+Definition has_optchain (n : node) : bool := has_kind KOptChain n.
